@@ -174,6 +174,39 @@ def run_timed(pid, res, rng, binary, n):
     return diffs, bad
 
 
+def run_live(pid, res, rng, binary, n):
+    """the same timed histories with the writer on its own thread, waiting at its mailbox when each message
+    arrives (harness `updl`): while it waits the clock reads earlier than when the message is processed -
+    by a few nanoseconds up to beyond the staleness threshold; what counts is the clock at the time the
+    report is processed.  -> (diffs, bad)"""
+    cases = []
+    for _ in range(n):
+        drift, th = rng.choice([0, 1000, 50000]), gen_timed(rng)
+        il, ml = timed_lines(drift, th)
+        t = il.split()
+        # insert a wait after every offset: how much earlier the clock read while the writer was waiting
+        out, k = ["updl", t[1], t[2]], 3
+        for off, m in th:
+            wait = rng.choice([1, 1000, 400 * 10 ** 6, 2 * NS, 9 * NS, 40 * NS, 600 * NS])
+            out += [t[k], str(wait)] + [str(x) for x in m]
+            k += 1 + len(m)
+        cases.append((" ".join(out), ml))
+    impl = c.run_lines(binary, [x[0] for x in cases], timeout=1800)
+    model = c.run_model([x[1] for x in cases])
+    res.evaluations += len(cases)
+    diffs, bad = [], []
+    for (il, ml), i, m in zip(cases, impl, model):
+        res.count("gen:writer waiting at its mailbox while the clock moves")
+        res.nontriv(il)
+        if i != m:
+            diffs.append({"case": il, "equivalent_untimed": ml, "impl": i, "model": m})
+        why = judge(ml, i, pid)
+        if why:
+            bad.append({"case": il, "equivalent_untimed": ml, "impl": i, "model": m,
+                        "why": why + ["(updl: the writer was waiting at its mailbox, the clock reading NOW + offset - wait, when the message was sent at NOW + offset)"]})
+    return diffs, bad
+
+
 def run_two_lives(pid, res, rng, binary, n):
     """two instances of the daemon's writer side, one after the other, over one segment file (harness
     `upd2`): the second starts over whatever the first left - possibly only the start-up placeholder,
@@ -234,6 +267,8 @@ def parse_out(out):
     t = out.split()
     if t[0] in ("panic", "MISMATCH"):
         return None
+    if not t or not t[0].isdigit():
+        return None          # panic, MISMATCH ...: not a list of records
     n = int(t[0])
     return [tuple(int(x) for x in t[1 + 7 * k: 8 + 7 * k]) for k in range(n)]
 
